@@ -50,12 +50,14 @@ def add(a, verify=True):
     return es
 
 
-def world(n, size=SIZE, revs=None, chains=None, clone=None, cps=None):
+def world(n, size=SIZE, revs=None, chains=None, clone=None, cps=None, polls=None):
     revs = revs or {}
     chains = chains or {}
     clone = clone or {}
     cps = cps or {}
-    return [dict(chain=chains.get(a, []), rev=revs.get(a, 1), size=size, clone=clone.get(a, "NA"), cp=cps.get(a, 0))
+    polls = polls or {}
+    return [dict(chain=chains.get(a, []), rev=revs.get(a, 1), size=size, clone=clone.get(a, "NA"), cp=cps.get(a, 0),
+                 **({"polls": polls[a]} if polls.get(a) else {}))
             for a in range(n)]
 
 
@@ -315,7 +317,7 @@ def run_cases(ctx, binpath, cases, tag="ctl", queries=None, workers=12):
     return res, outs
 
 
-ORACLES = ["C02", "C03", "C04", "C05", "C09", "C13", "C18", "C01", "C16", "C07"]
+ORACLES = ["C02", "C03", "C04", "C05", "C09", "C13", "C18", "C01", "C16", "C07", "C19"]
 
 
 def parse_bad(res):
